@@ -68,14 +68,18 @@ const PREVOUT_FIELDS_LEN: usize = 33 + 9 + 3;
 // ALL|ANYONECANPAY instance did not finish in 13 min / 7 GB with the real cache code, because CBMC explores the cache
 // closures on every path).
 fn any_digest() -> ShaHash { ShaHash::from_byte_array(kani::any()) }
-fn common_cache_model<'a, R: Deref<Target = Transaction>>(c: &'a mut Option<CommonCache>, _tx: &R) -> &'a CommonCache {
-    c.get_or_insert_with(|| CommonCache { prevouts: any_digest(), sequences: any_digest(), outputs: any_digest(), issuances: any_digest() })
-}
-fn taproot_cache_model<'a, R: Deref<Target = Transaction>, T: Borrow<TxOut>>(c: &'a mut Option<TaprootCache>, _tx: &R, _prevouts: &[T]) -> &'a TaprootCache {
-    c.get_or_insert_with(|| TaprootCache {
-        script_pubkeys: any_digest(), outpoint_flags: any_digest(), asset_amounts: any_digest(),
-        issuance_rangeproofs: any_digest(), output_witnesses: any_digest(),
-    })
+// (the models are methods of a generic impl so that their generic parameters line up with those of the stubbed methods)
+struct CacheModels<R>(core::marker::PhantomData<R>);
+impl<R: Deref<Target = Transaction>> CacheModels<R> {
+    fn common<'a>(c: &'a mut Option<CommonCache>, _tx: &R) -> &'a CommonCache {
+        c.get_or_insert_with(|| CommonCache { prevouts: any_digest(), sequences: any_digest(), outputs: any_digest(), issuances: any_digest() })
+    }
+    fn taproot<'a, T: Borrow<TxOut>>(c: &'a mut Option<TaprootCache>, _tx: &R, _prevouts: &[T]) -> &'a TaprootCache {
+        c.get_or_insert_with(|| TaprootCache {
+            script_pubkeys: any_digest(), outpoint_flags: any_digest(), asset_amounts: any_digest(),
+            issuance_rangeproofs: any_digest(), output_witnesses: any_digest(),
+        })
+    }
 }
 
 struct Query {
@@ -120,8 +124,8 @@ macro_rules! one_harness {
         #[kani::stub(<ShaEngine as HashEngineTrait>::input, hm::input_fold)]
         #[kani::stub(ShaHash::from_engine, hm::from_engine_fold)]
         #[kani::stub(std::io::Write::write_all, hm::WriteAllOnce::write_all_once)]
-        #[kani::stub(SighashCache::common_cache_minimal_borrow, common_cache_model)]
-        #[kani::stub(SighashCache::taproot_cache_minimal_borrow, taproot_cache_model)]
+        #[kani::stub(SighashCache::common_cache_minimal_borrow, CacheModels::common)]
+        #[kani::stub(SighashCache::taproot_cache_minimal_borrow, CacheModels::taproot)]
         fn $name() {
             const NIN: usize = $nin;
             const NOUT: usize = $nout;
